@@ -135,6 +135,29 @@ def emissions(w, fn, acc=None):
         if k == "mcall" and e["name"] in ("push_str", "push") and H.local_name(e["recv"]) == state["acc"] and state["acc"] is not None:
             emit(e["args"][0], guards, e.get("line"), loops, top)
             return
+        if k in ("mcall", "call") and state["acc"] is not None and state.get("depth", 0) < 3:
+            # a local helper that is handed `&mut <accumulator>`: its emissions are this routine's emissions, in place, with the helper's
+            # parameters replaced by the caller's argument expressions (so guards and templates stay expressed over the caller's state)
+            callee = e.get("callee") if k == "mcall" else H.path_of(e["f"])
+            args = ([e["recv"]] if k == "mcall" else []) + list(e["args"])
+            j = None
+            for i, a in enumerate(args):
+                a0 = H.unwrap(a)
+                if H.is_k(a0, "ref") and a0.get("mut") and H.local_name(a0["e"]) == state["acc"]:
+                    j = i
+                elif k == "mcall" and i > 0 and H.local_name(a0) == state["acc"] and str(a0.get("ty", "")).startswith("&mut"):
+                    j = i
+            hb = w.facts.hir.get(callee) if callee else None
+            if j is not None and hb is not None and (e.get("callee_local") or k == "call"):
+                names = [p_.get("name") for p_ in hb["params"]]
+                if len(names) == len(args) and all(names):
+                    mapping = {n_: a for i, (n_, a) in enumerate(zip(names, args)) if i != j}
+                    body = subst_locals(hb["body"], mapping)
+                    saved = state["acc"]
+                    state["acc"], state["depth"] = names[j], state.get("depth", 0) + 1
+                    walk_block(body, guards, loops, top)
+                    state["acc"], state["depth"] = saved, state["depth"] - 1
+                    return
         if k == "if":
             c = e["cond"]
             walk_block(e["then"], guards + [(key(c), True, c)], loops, top)
@@ -163,6 +186,17 @@ def emissions(w, fn, acc=None):
             return
     walk_block(h["body"], [], [], None)
     return out, locals_, state["acc"]
+
+
+def subst_locals(n, mapping):
+    """Copy of an HIR tree with every use of a local named in `mapping` replaced by the mapped expression."""
+    if isinstance(n, dict):
+        if n.get("k") == "path" and n.get("res") == "local" and n.get("name") in mapping:
+            return mapping[n["name"]]
+        return {k_: subst_locals(v, mapping) for k_, v in n.items()}
+    if isinstance(n, list):
+        return [subst_locals(x, mapping) for x in n]
+    return n
 
 
 def src_pat(p):
